@@ -1,0 +1,18 @@
+//go:build verif
+
+package consul
+
+import "net/http"
+
+// VerifHTTPClient, if set, supplies the HTTP client of the leaser created for
+// hostname (verification harnesses route it to an in-process Consul endpoint).
+var VerifHTTPClient func(hostname string) *http.Client
+
+func verifHTTPClient(hostname string) *http.Client {
+	if VerifHTTPClient != nil {
+		if c := VerifHTTPClient(hostname); c != nil {
+			return c
+		}
+	}
+	return http.DefaultClient
+}
